@@ -685,6 +685,9 @@ func ruleMonotonePosition(c *Ctx) {
 						if p, ok := bo.Y.(*ssa.Parameter); ok {
 							good = nonNegativeAtCallers(c, f, p)
 						}
+						if _, isLen := isBuiltinCall(bo.Y, "len"); isLen {
+							good = true // a length is never negative
+						}
 					}
 				}
 				c.check(good, key, st.Pos(), "moves forward (or starts a new line at column 0)", "the generated position can move backwards: segments are no longer ordered by generated position")
